@@ -3,7 +3,7 @@
    about errors or properties. *)
 type sexp = Runner.sexp = A of Runner.n list | L of sexp list
 type n = Runner.n
-let run_case = Runner.run_case
+let run_case = Runner.run_case2
 
 let rec pos_of_int i =
   if i = 1 then Runner.XH
